@@ -12,6 +12,9 @@
 // REGIME 0: poles of contributing pairs pairwise >= 1e-8 apart (no merging)
 // REGIME 1: poles pairwise equal or >= 1e-8 apart, contributing residues all > 1e-8 (merging without cancellation)
 // REGIME 2: memory-safety monitors only.
+// REGIME 6: (C08) OUTER = INNER = 2, inner and outer block are THE SAME block (one-block partition: same energies, same weights);
+//           refining the partition into two 1x1 blocks turns every contributing pair (n,m) into a 1x1 part between block {m} and
+//           block {n}; the sum of those part values must equal the value of the 2x2 part (z away from 0 and z = 0 exactly).
 #include "prestate.h"
 #include "pomerol/SusceptibilityPart.h"
 
@@ -43,6 +46,9 @@ extern "C" void h_main() {
     assume(beta > 0);
     DensityMatrixPart& DMin = pre::dmpart(Hin, i, beta, "win");
     DensityMatrixPart& DMout = pre::dmpart(Hout, o, beta, "wout");
+#if REGIME == 6
+    for (int k = 0; k < o; ++k) { Hout.Eigenvalues(k) = Hin.Eigenvalues(k); DMout.weights(k) = DMin.weights(k); }
+#endif
     QuadraticOperatorPart& A = pre::oppart<QuadraticOperatorPart>(dA);
     QuadraticOperatorPart& B = pre::oppart<QuadraticOperatorPart>(dB);
 
@@ -50,7 +56,46 @@ extern "C" void h_main() {
     Chi.compute();
     reach("computed");
 
-#if REGIME != 2
+#if REGIME == 6
+    {
+#if ZCASE == 0
+        double x = sym_real("zre"), y = sym_real("zim");
+        assume(y * y >= 1e-20);
+#else
+        double x = 0, y = 0;
+#endif
+        ComplexType whole = Chi(ComplexType(x, y));
+        ComplexType split(0, 0);
+        int nparts = 0;
+        for (int n = 0; n < o; ++n) for (int m = 0; m < i; ++m) {
+            if (!(dA.present[n][m] && dB.present[m][n])) continue;
+            // a level difference is either exactly zero or outside the resonance tolerance (the band itself is not the subject here)
+            double Pnm = Hin.Eigenvalues(m) - Hout.Eigenvalues(n);
+            if (Pnm != 0) assume(mabs(Pnm) >= 1e-8);
+            pre::Dense a1, b1; a1.rows = a1.cols = b1.rows = b1.cols = 1;
+            a1.present[0][0] = true; a1.v[0][0] = dA.v[n][m];
+            b1.present[0][0] = true; b1.v[0][0] = dB.v[m][n];
+            HamiltonianPart& hi = pre::raw<HamiltonianPart>(); new (&hi.H) MatrixType(); new (&hi.Eigenvalues) RealVectorType(1);
+            hi.Eigenvalues(0) = Hin.Eigenvalues(m); hi.Status = ComputableObject::Computed;
+            HamiltonianPart& ho = pre::raw<HamiltonianPart>(); new (&ho.H) MatrixType(); new (&ho.Eigenvalues) RealVectorType(1);
+            ho.Eigenvalues(0) = Hout.Eigenvalues(n); ho.Status = ComputableObject::Computed;
+            DensityMatrixPart& di = pre::raw<DensityMatrixPart>(); new (static_cast<Thermal*>(&di)) Thermal(beta); new (&di.weights) RealVectorType(1);
+            di.weights(0) = DMin.weights(m); di.retained = true;
+            DensityMatrixPart& dou = pre::raw<DensityMatrixPart>(); new (static_cast<Thermal*>(&dou)) Thermal(beta); new (&dou.weights) RealVectorType(1);
+            dou.weights(0) = DMout.weights(n); dou.retained = true;
+            QuadraticOperatorPart& Ak = pre::oppart<QuadraticOperatorPart>(a1);
+            QuadraticOperatorPart& Bk = pre::oppart<QuadraticOperatorPart>(b1);
+            SusceptibilityPart Ck(Ak, Bk, hi, ho, di, dou);
+            Ck.compute();
+            split += Ck(ComplexType(x, y));
+            ++nparts;
+            if (Pnm == 0 && n != m) reach("degenerate_pair_across_blocks");
+        }
+        check_eq(whole.real(), split.real(), "sum of susceptibility part values is invariant under splitting the block (real part)");
+        check_eq(whole.imag(), split.imag(), "sum of susceptibility part values is invariant under splitting the block (imaginary part)");
+        if (nparts >= 2) reach("split_compared");
+    }
+#elif REGIME != 2
 #if ZCASE == 0
     double x = sym_real("zre"), y = sym_real("zim");
     assume(y * y >= 1e-20);
